@@ -451,7 +451,7 @@ func (db *DB) WaitPosExact(ctx context.Context, target ltx.Pos) error {
 	for {
 		select {
 		case <-ctx.Done():
-			return context.Cause(ctx)
+			return contextCause(ctx)
 		case <-ticker.C:
 			pos := db.Pos()
 			if pos.TXID < target.TXID {
@@ -2978,7 +2978,7 @@ func (db *DB) AcquireWriteLock(ctx context.Context, fn func() error) (_ *GuardSe
 
 		select {
 		case <-ctx.Done():
-			return nil, context.Cause(ctx)
+			return nil, contextCause(ctx)
 		case <-ticker.C:
 			d := (2 ^ time.Duration(i)) * interval
 			if d > maxInterval {
@@ -3501,7 +3501,7 @@ func (db *DB) WriteSnapshotTo(ctx context.Context, dst io.Writer) (header ltx.He
 	for pgno := uint32(1); pgno <= pageN; pgno++ {
 		select {
 		case <-ctx.Done():
-			return header, trailer, context.Cause(ctx)
+			return header, trailer, contextCause(ctx)
 		default:
 		}
 
